@@ -20,8 +20,9 @@
 // written into one scratch module and `go build ./...` compiles every package of it.
 //
 // Oracle: no worker death / panic / log.Fatal; gen.Generate returns nil; the generated packages (all of
-// them: root, token, ast, selector) compile. go vet diagnostics (thorough tier) are recorded as
-// coverage only: the property says "build".
+// them: root, token, ast, selector) compile. With C17_VET=1 `go vet` also runs on the cases that build
+// and its diagnostics are recorded as coverage only (the property says "build"; the two classes seen
+// on the unchanged tree are "unreachable code" in ast/factory.go and stream.go).
 package main
 
 import (
@@ -998,7 +999,7 @@ func worker(w *core.Worker) {
 					}
 				}
 			}()
-			recs, err := buildAll(specs, os.Getenv("C17_VET") != "" || !w.Quick())
+			recs, err := buildAll(specs, os.Getenv("C17_VET") != "")
 			close(stop)
 			<-stopped
 			if err != nil {
